@@ -237,6 +237,17 @@ pub fn make_rx(p: RxParams) -> ScenarioFn {
                 }
                 other => out.viol("C08:rx:other-direction-broken", format!("write after the peer's FIN: {:?}", other.map(|r| r.map_err(|e| e.to_string())))),
             }
+            // ... also through the forwarding task (the path handlers and the relay loops use)
+            if s1.send_data(Bytes::from_static(b"forwarded-after-fin")).is_err() {
+                out.viol("C08:rx:other-direction-broken", "send_data after the peer's FIN failed");
+            } else {
+                settle().await;
+                tokio::time::sleep(Duration::from_millis(50)).await;
+                let (frames, _) = parse_all(&wire.written());
+                if !frames.iter().any(|f| f.cmd == PSH && f.id == id && f.data == b"forwarded-after-fin") {
+                    out.viol("C08:rx:other-direction-broken", "a chunk handed to the forwarding task after the peer's FIN did not reach the transport");
+                }
+            }
             // no state retained for the finished stream
             let ids = sess.verif_stream_ids().await;
             if ids.contains(&id) {
